@@ -185,15 +185,41 @@ def reset(cfg):
 _cold = {}
 
 
+def _in_child(fn):
+    """Run fn() in a forked child and return its (picklable) result: whatever hidden state the call leaves behind - a cache
+    the harness does not know about, a module-level memo - cannot leak into the parent or into the next cold run."""
+    import os
+    r, w = os.pipe()
+    pid = os.fork()
+    if pid == 0:
+        try:
+            os.close(r)
+            data = pickle.dumps(fn())
+            with os.fdopen(w, "wb") as f:
+                f.write(data)
+        finally:
+            os._exit(0)
+    os.close(w)
+    with os.fdopen(r, "rb") as f:
+        data = f.read()
+    os.waitpid(pid, 0)
+    return pickle.loads(data)
+
+
 def cold_outcomes():
-    """Outcome of every operation executed first in a cold state with the default configuration, and the cold pool snapshot."""
+    """Outcome of every operation executed FIRST in a pristine process image (one forked child per operation, taken before this
+    worker has executed any history), with all known lru caches cleared and the default configuration; and the cold pool snapshot."""
     if not _cold:
-        for i in range(len(ops())):
+        def one(i):
             reset(0)
-            pool = new_pool()
-            _cold[i] = run_op(i, pool)
-        reset(0)
-        _cold["pool"] = snap_pool(new_pool())
+            return run_op(i, new_pool())
+        for i in range(len(ops())):
+            _cold[i] = _in_child(lambda i=i: one(i))
+
+        def snap():
+            reset(0)
+            return snap_pool(new_pool())
+        _cold["pool"] = _in_child(snap)
     return _cold
 
 
